@@ -372,11 +372,11 @@ func (db *DB) Close() error {
 
 // Sync 数据持久化
 func (db *DB) Sync() error {
+	db.mu.Lock()
+	defer db.mu.Unlock()
 	if db.activeFile == nil {
 		return nil
 	}
-	db.mu.Lock()
-	defer db.mu.Unlock()
 
 	// 仅持久化当前活跃文件
 	return db.activeFile.Sync()
